@@ -439,6 +439,7 @@ fn run_history(prop: &str, spec: &WsSpec, ops: &[HOp], root: &Path, scan_first: 
     let mut queried_before_analysis = false;
     let mut pending_query = false;
     let mut disturbed = false; // a close / eviction happened
+    let mut reopened: BTreeSet<String> = BTreeSet::new(); // documents opened (and closed) without modification
     for (step, op) in ops.iter().enumerate() {
         match op {
             HOp::Analyze { file, text } => {
@@ -476,6 +477,7 @@ fn run_history(prop: &str, spec: &WsSpec, ops: &[HOp], root: &Path, scan_first: 
                     continue; // only *unmodified* documents
                 }
                 // (not logged: the cold twin is the server in which this document was never opened)
+                reopened.insert(file.clone());
                 live.document_opened(&root.join(file));
                 live.analyze_file(root.join(file), d);
                 live.document_closed(&root.join(file));
@@ -527,7 +529,7 @@ fn run_history(prop: &str, spec: &WsSpec, ops: &[HOp], root: &Path, scan_first: 
                     if queried_before_analysis || disturbed {
                         res.nontrivial = true;
                     }
-                    check_cold_twin(&mut res, &live, &log, root, step, spec, scan_first);
+                    check_cold_twin(&mut res, &live, &log, root, step, spec, scan_first, &reopened);
                 }
             }
         }
@@ -672,7 +674,7 @@ fn check_refs_relation(res: &mut HRes, live: &Arc<FixtureDatabase>, cur: &BTreeM
 }
 
 /// C07: cold twin = the same analyses (same order, same texts) with no queries, closes, fillers.
-fn check_cold_twin(res: &mut HRes, live: &Arc<FixtureDatabase>, log: &[(String, String)], root: &Path, step: usize, spec: &WsSpec, scan_first: bool) {
+fn check_cold_twin(res: &mut HRes, live: &Arc<FixtureDatabase>, log: &[(String, String)], root: &Path, step: usize, spec: &WsSpec, scan_first: bool, reopened: &BTreeSet<String>) {
     let cold = Arc::new(FixtureDatabase::new());
     if scan_first {
         cold.scan_workspace(root);
@@ -723,6 +725,13 @@ fn check_cold_twin(res: &mut HRes, live: &Arc<FixtureDatabase>, log: &[(String, 
     for (key, x, y) in sa.all_diffs(&sb) {
         if y == "<absent>" && x.is_empty() {
             continue;
+        }
+        // undeclared-fixture findings reflect the instant of a document's last analysis; opening an unmodified document
+        // analyses it again (they are not among the answers the statement lists)
+        if let Some(f) = key.strip_prefix("undeclared ") {
+            if reopened.contains(f) {
+                continue;
+            }
         }
         // mechanism hints (the root causes of these names are repaired; a returning violation keeps the label)
         let library_file_indexed = live.file_definitions.iter().any(|e| rel(root, e.key()).contains("/otherlib/"));
